@@ -210,6 +210,11 @@ E = {
  "E-C04-3": "scaled_integer/convert_operator.h: named locals shift / value / factor / widened in every branch",
  "E-C05-3": "elastic_tag policy / custom_operator: nested std::max, `|` -> `? 1 : 0`, contribution() as if/return, operands bound to named const locals",
  "E-C16-3": "fraction ordering: ?: -> if, cross products bound to locals",
+ "E-C06-3": "is_overflow.h add / multiply predicates (both polarities): && chains -> early-return ifs (De Morgan, order kept), named operand_digits",
+ "E-C08-3": "tie_to_pos_inf divide: step1 inlined into operator(), step2 renamed, `lhs < 0` hoisted into is_negative / tie_adjustment; native_rounding_tag bases spelled with the default tag",
+ "E-C09-3": "rounding/convert_operator.h (tie and neg_inf): floor_residual / floor_int inlined into floor with named const locals",
+ "E-C12-3": "wrapper unary / shift / binary operators: operate<> helper inlined, rep operator and operands named through aliases and const references",
+ "E-C18-3": "bit.h: rotl / rotr shift counts hoisted into locals; countl_zero / countr_zero specialisations ?: -> if",
  "E-C02-2": "named.h: result-type computation of quotient extracted into a traits class, std::max written out",
  "E-C04-2": "convert_operator.h: cross-radix steps through a mutate-in-place helper `rescale`, same-radix path through named locals",
  "E-C05-2": "elastic_integer/custom_operator.h: `|` -> `||`, aliases for result types, hoisted locals in bitwise_not and the comparison",
